@@ -132,6 +132,31 @@ func c04Offsets(c *core.Ctx, sessF, freeF, localID *types.Var) {
 						if _, f, ok := core.LoadedField(v); ok && f == localID {
 							okOff, src = true, "Sess.LocalID"
 						}
+						// ... or the very value that has just been stored as some session's LocalID
+						if !okOff && v.Referrers() != nil {
+							var flows func(x ssa.Value, depth int) bool
+							flows = func(x ssa.Value, depth int) bool {
+								if depth > 3 || x.Referrers() == nil {
+									return false
+								}
+								for _, r := range *x.Referrers() {
+									switch y := r.(type) {
+									case *ssa.Store:
+										if fa, isFa := y.Addr.(*ssa.FieldAddr); isFa && y.Val == x && core.FieldOfAddr(fa) == localID {
+											return true
+										}
+									case *ssa.Phi:
+										if flows(y, depth+1) {
+											return true
+										}
+									}
+								}
+								return false
+							}
+							if flows(v, 0) {
+								okOff, src = true, "Sess.LocalID"
+							}
+						}
 					}
 				}
 			}
@@ -142,36 +167,43 @@ func c04Offsets(c *core.Ctx, sessF, freeF, localID *types.Var) {
 	nStores := 0
 	for _, fn := range p.OwnFuncs() {
 		for _, st := range storesToField(fn, localID) {
-			nStores++
-			isNew := fn == p.SSAFn(p.Method(pkgPfcp, "LocalNode", "NewSess"))
-			desc, ok := "", false
-			v := st.Val
-			if cv, ok2 := v.(*ssa.Convert); ok2 {
-				v = cv.X
+			// one store of a merged value (s.LocalID = n.place(s), both ways of choosing the id joined in a phi)
+			// is judged edge by edge
+			vals := []ssa.Value{st.Val}
+			if ph, isPhi := st.Val.(*ssa.Phi); isPhi {
+				vals = ph.Edges
 			}
-			if ld, ok2 := v.(*ssa.UnOp); ok2 && ld.Op == token.MUL {
-				if ia, ok3 := ld.X.(*ssa.IndexAddr); ok3 {
-					if _, f, ok4 := core.LoadedField(ia.X); ok4 && f == freeF {
-						ok, desc = true, "a released id popped from the free list"
-					}
+			for _, v := range vals {
+				nStores++
+				isNew := fn == p.SSAFn(p.Method(pkgPfcp, "LocalNode", "NewSess"))
+				desc, ok := "", false
+				if cv, ok2 := v.(*ssa.Convert); ok2 {
+					v = cv.X
 				}
-			}
-			if lc, ok2 := v.(*ssa.Call); ok2 {
-				if bi, ok3 := lc.Call.Value.(*ssa.Builtin); ok3 && bi.Name() == "len" {
-					if _, f, ok4 := core.LoadedField(lc.Call.Args[0]); ok4 && f == sessF {
-						// the load must come after the append-store in the same function
-						after := false
-						for _, ast := range storesToField(fn, sessF) {
-							if isAppendTo(ast.Val, sessF) && core.InstrDominates(ast, lc) && appendsValue(ast.Val, st.Addr.(*ssa.FieldAddr).X) {
-								after = true
-							}
+				if ld, ok2 := v.(*ssa.UnOp); ok2 && ld.Op == token.MUL {
+					if ia, ok3 := ld.X.(*ssa.IndexAddr); ok3 {
+						if _, f, ok4 := core.LoadedField(ia.X); ok4 && f == freeF {
+							ok, desc = true, "a released id popped from the free list"
 						}
-						ok, desc = after, "len(table) read after the session itself was appended (slot = SEID-1, SEID >= 1)"
 					}
 				}
+				if lc, ok2 := v.(*ssa.Call); ok2 {
+					if bi, ok3 := lc.Call.Value.(*ssa.Builtin); ok3 && bi.Name() == "len" {
+						if _, f, ok4 := core.LoadedField(lc.Call.Args[0]); ok4 && f == sessF {
+							// the load must come after the append-store in the same function
+							after := false
+							for _, ast := range storesToField(fn, sessF) {
+								if isAppendTo(ast.Val, sessF) && core.InstrDominates(ast, lc) && appendsValue(ast.Val, st.Addr.(*ssa.FieldAddr).X) {
+									after = true
+								}
+							}
+							ok, desc = after, "len(table) read after the session itself was appended (slot = SEID-1, SEID >= 1)"
+						}
+					}
+				}
+				c.Check("R2", fmt.Sprintf("localid-store:%s#%d", core.FnName(fn), nStores), st.Pos(), ok && isNew,
+					"UP SEID assigned in LocalNode.NewSess from "+desc)
 			}
-			c.Check("R2", fmt.Sprintf("localid-store:%s#%d", core.FnName(fn), nStores), st.Pos(), ok && isNew,
-				"UP SEID assigned in LocalNode.NewSess from "+desc)
 		}
 	}
 	c.Floor("R2", nStores, 2, "stores to Sess.LocalID")
